@@ -1159,6 +1159,280 @@ def normalise_calls(model, fn) -> int:
     return 0
 
 
+def normalise_range_elements(fn) -> int:
+    """`levels = range(a, b, s)` ... `levels[j]`  ->  `a + j * s`, in place, when `levels` is a local bound exactly once to a range / np.arange
+    of plain arguments, used only as `levels[<index>]`, and every index is a loop variable of a `for .. in range(..)` that starts at a
+    non-negative constant (so it cannot be negative) or a non-negative integer constant.  Element j of an arithmetic progression IS
+    a + j s; rules that read grid coordinates expect the arithmetic."""
+    from .astutil import single_locals
+    from .model import norm
+    voc = _vocab(fn)
+    if not (voc & {'range', 'arange'}) or 'Subscript' not in voc:
+        return 0
+    defs = {}
+    for k, v in single_locals(fn).items():
+        if isinstance(v, ast.Call) and norm(v.func) in ('range', 'np.arange', 'numpy.arange') and 1 <= len(v.args) <= 3 and not v.keywords \
+                and not any(isinstance(x, (ast.Call, ast.Starred)) for a in v.args for x in ast.walk(a)) and k not in fn.params:
+            defs[k] = v
+    if not defs:
+        return 0
+    nonneg = set()
+    for n in ast.walk(fn.node):
+        if isinstance(n, ast.For) and isinstance(n.target, ast.Name) and isinstance(n.iter, ast.Call) and norm(n.iter.func) == 'range' \
+                and 1 <= len(n.iter.args) <= 3:
+            a = n.iter.args
+            start_ok = len(a) == 1 or (isinstance(a[0], ast.Constant) and isinstance(a[0].value, int) and a[0].value >= 0)
+            step_ok = len(a) < 3 or (isinstance(a[2], ast.Constant) and isinstance(a[2].value, int) and a[2].value > 0)
+            if start_ok and step_ok:
+                nonneg.add(n.target.id)
+    # every use of the name must be an element subscript with an admissible index
+    uses = {k: [] for k in defs}
+    bad = set()
+    parents = {}
+    for n in ast.walk(fn.node):
+        for ch in ast.iter_child_nodes(n):
+            parents[id(ch)] = n
+    for n in ast.walk(fn.node):
+        if isinstance(n, ast.Name) and n.id in defs and isinstance(n.ctx, ast.Load):
+            p = parents.get(id(n))
+            ok = isinstance(p, ast.Subscript) and p.value is n and isinstance(p.ctx, ast.Load) and (
+                (isinstance(p.slice, ast.Name) and p.slice.id in nonneg)
+                or (isinstance(p.slice, ast.Constant) and isinstance(p.slice.value, int) and p.slice.value >= 0))
+            if ok:
+                uses[n.id].append(p)
+            else:
+                bad.add(n.id)
+    done = 0
+    repl = {}
+    for k, subs in uses.items():
+        if k in bad or not subs:
+            continue
+        a = defs[k].args
+        start = a[0] if len(a) >= 2 else ast.Constant(value=0)
+        step = a[2] if len(a) == 3 else ast.Constant(value=1)
+        for p in subs:
+            idx = copy.deepcopy(p.slice)
+            term = idx if (isinstance(step, ast.Constant) and step.value == 1) else ast.BinOp(left=idx, op=ast.Mult(), right=copy.deepcopy(step))
+            new = term if (isinstance(start, ast.Constant) and start.value == 0) else ast.BinOp(left=copy.deepcopy(start), op=ast.Add(), right=term)
+            repl[id(p)] = new
+            done += 1
+    if not done:
+        return 0
+
+    class R(ast.NodeTransformer):
+        def visit_Subscript(self, n):
+            if id(n) in repl:
+                return ast.copy_location(repl[id(n)], n)
+            self.generic_visit(n)
+            return n
+    R().visit(fn.node)
+    ast.fix_missing_locations(fn.node)
+    return 1
+
+
+def normalise_fro_norms(fn) -> int:
+    """Spellings of the Frobenius norm (Euclidean norm of all entries) and of its square -> `np.linalg.norm(X, 'fro')` [** 2], in place:
+
+        np.vdot(X, X).real, np.real(np.vdot(X, X))                          energy
+        np.sum(np.abs(X) ** 2), np.sum(np.absolute(X) ** 2)                 energy
+        np.sum(X * X.conj()).real, np.sum(np.conj(X) * X).real  (+ np.real) energy
+        np.sum(X.real ** 2 + X.imag ** 2)                                   energy
+        np.trace(X.conj().T @ X).real / np.trace(np.dot(X.conj().T, X)).real  energy
+        np.sqrt(energy) / math.sqrt(energy) / energy ** 0.5                 norm
+        np.linalg.norm(X)                  (no ord, no axis)                norm
+
+    The rules know the norm as np.linalg.norm(., 'fro'); every one of these is the same function of the entries of X."""
+    from .model import norm
+    voc = _vocab(fn)
+    if not (voc & {'vdot', 'sum', 'trace', 'norm'}):
+        return 0
+    done = 0
+
+    def same(a, b) -> bool:
+        return norm(a) == norm(b)
+
+    def conj_of(e):
+        """X if e is X.conj() / X.conjugate() / np.conj(X) / np.conjugate(X)"""
+        if isinstance(e, ast.Call) and isinstance(e.func, ast.Attribute) and e.func.attr in ('conj', 'conjugate') and not e.args \
+                and not (isinstance(e.func.value, ast.Name) and e.func.value.id in ('np', 'numpy')):
+            return e.func.value
+        if isinstance(e, ast.Call) and norm(e.func) in ('np.conj', 'np.conjugate') and len(e.args) == 1:
+            return e.args[0]
+        return None
+
+    def herm_of(e):
+        """X if e is X.conj().T / X.T.conj() / X.conjugate().transpose() ..."""
+        if isinstance(e, ast.Attribute) and e.attr == 'T':
+            return conj_of(e.value)
+        if isinstance(e, ast.Call) and isinstance(e.func, ast.Attribute) and e.func.attr == 'transpose' and not e.args:
+            return conj_of(e.func.value)
+        c = conj_of(e)
+        if c is not None:
+            if isinstance(c, ast.Attribute) and c.attr == 'T':
+                return c.value
+            if isinstance(c, ast.Call) and isinstance(c.func, ast.Attribute) and c.func.attr == 'transpose' and not c.args:
+                return c.func.value
+        return None
+
+    def real_of(e):
+        if isinstance(e, ast.Attribute) and e.attr == 'real':
+            return e.value
+        if isinstance(e, ast.Call) and norm(e.func) == 'np.real' and len(e.args) == 1:
+            return e.args[0]
+        return None
+
+    def is_two(e) -> bool:
+        return isinstance(e, ast.Constant) and e.value in (2, 2.0)
+
+    def energy_arg(e):
+        """X if e is one of the energy spellings of X"""
+        r = real_of(e)
+        if r is not None:
+            if isinstance(r, ast.Call) and norm(r.func) in ('np.vdot', 'np.dot') and len(r.args) == 2 and not r.keywords:
+                if norm(r.func) == 'np.vdot' and same(r.args[0], r.args[1]):
+                    return r.args[0]
+            if isinstance(r, ast.Call) and norm(r.func) == 'np.sum' and len(r.args) == 1 and not r.keywords \
+                    and isinstance(r.args[0], ast.BinOp) and isinstance(r.args[0].op, ast.Mult):
+                a, b = r.args[0].left, r.args[0].right
+                for x, y in ((a, b), (b, a)):
+                    cx_ = conj_of(y)
+                    if cx_ is not None and same(x, cx_):
+                        return x
+            if isinstance(r, ast.Call) and norm(r.func) == 'np.trace' and len(r.args) == 1 and not r.keywords:
+                p_ = r.args[0]
+                ops = None
+                if isinstance(p_, ast.BinOp) and isinstance(p_.op, ast.MatMult):
+                    ops = (p_.left, p_.right)
+                elif isinstance(p_, ast.Call) and norm(p_.func) == 'np.dot' and len(p_.args) == 2:
+                    ops = (p_.args[0], p_.args[1])
+                elif isinstance(p_, ast.Call) and isinstance(p_.func, ast.Attribute) and p_.func.attr == 'dot' and len(p_.args) == 1:
+                    ops = (p_.func.value, p_.args[0])
+                if ops is not None:
+                    for x, y in (ops, ops[::-1]):
+                        h = herm_of(x)
+                        if h is not None and same(h, y):
+                            return y
+            return None
+        if isinstance(e, ast.Call) and norm(e.func) == 'np.sum' and len(e.args) == 1 and not e.keywords:
+            a0 = e.args[0]
+            if isinstance(a0, ast.BinOp) and isinstance(a0.op, ast.Pow) and is_two(a0.right) and isinstance(a0.left, ast.Call) \
+                    and norm(a0.left.func) in ('np.abs', 'np.absolute', 'abs') and len(a0.left.args) == 1:
+                return a0.left.args[0]
+            if isinstance(a0, ast.BinOp) and isinstance(a0.op, ast.Add):
+                def sq_part(x, part):
+                    return x.left.value if isinstance(x, ast.BinOp) and isinstance(x.op, ast.Pow) and is_two(x.right) \
+                        and isinstance(x.left, ast.Attribute) and x.left.attr == part else None
+                for l_, r_ in ((a0.left, a0.right), (a0.right, a0.left)):
+                    xr, xi = sq_part(l_, 'real'), sq_part(r_, 'imag')
+                    if xr is not None and xi is not None and same(xr, xi):
+                        return xr
+        return None
+
+    def fro(x):
+        return ast.Call(func=ast.Attribute(value=ast.Attribute(value=ast.Name(id='np', ctx=ast.Load()), attr='linalg', ctx=ast.Load()),
+                                           attr='norm', ctx=ast.Load()), args=[copy.deepcopy(x), ast.Constant(value='fro')], keywords=[])
+
+    class R(ast.NodeTransformer):
+        def visit(self, n):
+            nonlocal done
+            # outermost first: sqrt(energy) must be seen before its inner energy is rewritten
+            if isinstance(n, ast.Call) and norm(n.func) in ('np.sqrt', 'math.sqrt') and len(n.args) == 1 and not n.keywords:
+                x = energy_arg(n.args[0])
+                if x is not None:
+                    done += 1
+                    return ast.copy_location(fro(self.visit(x)), n)
+            if isinstance(n, ast.BinOp) and isinstance(n.op, ast.Pow) and isinstance(n.right, ast.Constant) and n.right.value == 0.5:
+                x = energy_arg(n.left)
+                if x is not None:
+                    done += 1
+                    return ast.copy_location(fro(self.visit(x)), n)
+            x = energy_arg(n) if isinstance(n, ast.expr) else None
+            if x is not None:
+                done += 1
+                return ast.copy_location(ast.BinOp(left=fro(self.visit(x)), op=ast.Pow(), right=ast.Constant(value=2)), n)
+            if isinstance(n, ast.Call) and norm(n.func) in ('np.linalg.norm', 'numpy.linalg.norm', 'linalg.norm') and len(n.args) == 1 and not n.keywords:
+                done += 1
+                n = ast.copy_location(ast.Call(func=n.func, args=[n.args[0], ast.Constant(value='fro')], keywords=[]), n)
+            return super().visit(n)
+    R().visit(fn.node)
+    if done:
+        ast.fix_missing_locations(fn.node)
+    return int(done > 0)
+
+
+def normalise_format_and_getattr(fn) -> int:
+    """Two spellings that appear when literals are moved into named constants, folded back in place:
+    (1) `'{0}{1}'.format(name, '.tmp')`  ->  `'{0}.tmp'.format(name)`: constant string arguments of str.format on a literal template
+        (plain `{}` / `{k}` fields, no conversion or format spec) are written into the template, the remaining fields renumbered;
+    (2) `getattr(X, {'a': 'f', 'b': 'g'}[key])`  ->  `{'a': X.f, 'b': X.g}[key]`: a dispatch through a table of METHOD NAMES is the table of
+        the bound attributes (identifier strings only)."""
+    import string
+    voc = _vocab(fn)
+    if 'format' not in voc and 'getattr' not in voc:
+        return 0
+    done = 0
+
+    class R(ast.NodeTransformer):
+        def visit_Call(self, c):
+            nonlocal done
+            self.generic_visit(c)
+            if isinstance(c.func, ast.Attribute) and c.func.attr == 'format' and isinstance(c.func.value, ast.Constant) \
+                    and isinstance(c.func.value.value, str) and not c.keywords and c.args \
+                    and any(isinstance(a, ast.Constant) and isinstance(a.value, str) for a in c.args) \
+                    and not any(isinstance(a, ast.Starred) for a in c.args):
+                try:
+                    parts = list(string.Formatter().parse(c.func.value.value))
+                except ValueError:
+                    return c
+                auto = 0
+                fields = []
+                for lit, name, spec, conv in parts:
+                    if name is None:
+                        fields.append((lit, None))
+                        continue
+                    if spec or conv:
+                        return c
+                    if name == '':
+                        k = auto
+                        auto += 1
+                    elif name.isdigit():
+                        k = int(name)
+                    else:
+                        return c
+                    if k >= len(c.args):
+                        return c
+                    fields.append((lit, k))
+                keep = [i for i, a in enumerate(c.args) if not (isinstance(a, ast.Constant) and isinstance(a.value, str))]
+                renum = {old: new for new, old in enumerate(keep)}
+                out = ''
+                for lit, k in fields:
+                    out += lit.replace('{', '{{').replace('}', '}}')
+                    if k is None:
+                        continue
+                    a = c.args[k]
+                    if isinstance(a, ast.Constant) and isinstance(a.value, str):
+                        out += a.value.replace('{', '{{').replace('}', '}}')
+                    else:
+                        out += '{%d}' % renum[k]
+                done += 1
+                new = ast.Call(func=ast.Attribute(value=ast.Constant(value=out), attr='format', ctx=ast.Load()),
+                               args=[c.args[i] for i in keep], keywords=[])
+                return ast.copy_location(new, c)
+            if isinstance(c.func, ast.Name) and c.func.id == 'getattr' and len(c.args) == 2 and not c.keywords \
+                    and isinstance(c.args[1], ast.Subscript) and isinstance(c.args[1].value, ast.Dict) and c.args[1].value.keys \
+                    and all(isinstance(v, ast.Constant) and isinstance(v.value, str) and v.value.isidentifier() for v in c.args[1].value.values) \
+                    and all(k is not None for k in c.args[1].value.keys) and isinstance(c.args[0], (ast.Name, ast.Attribute)):
+                d = c.args[1].value
+                table = ast.Dict(keys=d.keys, values=[ast.Attribute(value=copy.deepcopy(c.args[0]), attr=v.value, ctx=ast.Load()) for v in d.values])
+                done += 1
+                return ast.copy_location(ast.Subscript(value=table, slice=c.args[1].slice, ctx=ast.Load()), c)
+            return c
+    R().visit(fn.node)
+    if done:
+        ast.fix_missing_locations(fn.node)
+    return int(done > 0)
+
+
 def normalise_named_tests(fn) -> int:
     """`flag = <test>` ... `if flag:` / `if not flag:` / `while flag` / `x if flag else y` / `assert flag`  ->  the test itself at the use,
     in place, when `flag` is a local bound exactly once to a pure test (comparison, `is None`, isinstance, and / or / not of such) and
@@ -1668,6 +1942,9 @@ def flatten_model(model) -> Optional[Flattener]:
     fl.dispatch = run(normalise_dispatch)
     fl.out_ufuncs = run(normalise_out_ufuncs)
     fl.string_locals = run(normalise_string_locals)
+    fl.format_getattr = run(normalise_format_and_getattr)
+    fl.fro_norms = run(normalise_fro_norms)
+    fl.range_elements = run(normalise_range_elements)
     fl.named_tests = run(normalise_named_tests)
     fl.ifexps = run(normalise_ifexp)
     fl.collectors = 0
